@@ -266,10 +266,13 @@ def step (s : VState) (t : List String) : VState × String :=
   match t with
   | ["vrestart"] => (s, "ok")
   | ["vq", q, r] =>
-    if (q != "get" && q != "bad") || (r != "ca" && r != "cb") then (s, "err:badop") else
+    if (q != "get" && q != "bad" && q != "poke") || (r != "ca" && r != "cb") then (s, "err:badop") else
     let v := if r == "ca" then s.ca else s.cb
+    -- get reads the counter; poke adds 1000 in the query's own throwaway state and
+    -- returns it; bad panics.  None of them has an effect.
     match q, v with
     | "get", some n => (s, s!"q:{n}")
+    | "poke", some n => (s, s!"q:{n + 1000}")
     | _, _ => (s, "q:err")
   | "vtx" :: mark :: rest =>
     if mark != "F" && mark != "S" then (s, "err:badop") else
